@@ -7,6 +7,18 @@ Json/Rfc8259.vos Json/Rfc8259.vok Json/Rfc8259.required_vos: Json/Rfc8259.v Comb
 Json/Recogniser.vo Json/Recogniser.glob Json/Recogniser.v.beautified Json/Recogniser.required_vo: Json/Recogniser.v Comb/PState.vo Comb/Bytes.vo Comb/Utf8.vo Json/Rfc8259.vo
 Json/Recogniser.vio: Json/Recogniser.v Comb/PState.vio Comb/Bytes.vio Comb/Utf8.vio Json/Rfc8259.vio
 Json/Recogniser.vos Json/Recogniser.vok Json/Recogniser.required_vos: Json/Recogniser.v Comb/PState.vos Comb/Bytes.vos Comb/Utf8.vos Json/Rfc8259.vos
+Json/EvalFacts.vo Json/EvalFacts.glob Json/EvalFacts.v.beautified Json/EvalFacts.required_vo: Json/EvalFacts.v Comb/PState.vo Comb/Bytes.vo Iter/Queue.vo Peg/Ast.vo Peg/Spec.vo Peg/SpecFacts.vo
+Json/EvalFacts.vio: Json/EvalFacts.v Comb/PState.vio Comb/Bytes.vio Iter/Queue.vio Peg/Ast.vio Peg/Spec.vio Peg/SpecFacts.vio
+Json/EvalFacts.vos Json/EvalFacts.vok Json/EvalFacts.required_vos: Json/EvalFacts.v Comb/PState.vos Comb/Bytes.vos Iter/Queue.vos Peg/Ast.vos Peg/Spec.vos Peg/SpecFacts.vos
+Json/LexLib.vo Json/LexLib.glob Json/LexLib.v.beautified Json/LexLib.required_vo: Json/LexLib.v Comb/PState.vo Comb/Bytes.vo Comb/Utf8.vo Comb/Utf8b.vo Iter/Queue.vo Peg/Ast.vo Peg/Spec.vo Json/Rfc8259.vo Json/Recogniser.vo Json/EvalFacts.vo
+Json/LexLib.vio: Json/LexLib.v Comb/PState.vio Comb/Bytes.vio Comb/Utf8.vio Comb/Utf8b.vio Iter/Queue.vio Peg/Ast.vio Peg/Spec.vio Json/Rfc8259.vio Json/Recogniser.vio Json/EvalFacts.vio
+Json/LexLib.vos Json/LexLib.vok Json/LexLib.required_vos: Json/LexLib.v Comb/PState.vos Comb/Bytes.vos Comb/Utf8.vos Comb/Utf8b.vos Iter/Queue.vos Peg/Ast.vos Peg/Spec.vos Json/Rfc8259.vos Json/Recogniser.vos Json/EvalFacts.vos
+Json/Lexical.vo Json/Lexical.glob Json/Lexical.v.beautified Json/Lexical.required_vo: Json/Lexical.v Comb/PState.vo Comb/Bytes.vo Comb/Utf8.vo Comb/Utf8b.vo Iter/Queue.vo Peg/Ast.vo Peg/Spec.vo gen/JsonGrammar.vo Json/Rfc8259.vo Json/Recogniser.vo Json/EvalFacts.vo Json/LexLib.vo
+Json/Lexical.vio: Json/Lexical.v Comb/PState.vio Comb/Bytes.vio Comb/Utf8.vio Comb/Utf8b.vio Iter/Queue.vio Peg/Ast.vio Peg/Spec.vio gen/JsonGrammar.vio Json/Rfc8259.vio Json/Recogniser.vio Json/EvalFacts.vio Json/LexLib.vio
+Json/Lexical.vos Json/Lexical.vok Json/Lexical.required_vos: Json/Lexical.v Comb/PState.vos Comb/Bytes.vos Comb/Utf8.vos Comb/Utf8b.vos Iter/Queue.vos Peg/Ast.vos Peg/Spec.vos gen/JsonGrammar.vos Json/Rfc8259.vos Json/Recogniser.vos Json/EvalFacts.vos Json/LexLib.vos
+Json/ParseLib.vo Json/ParseLib.glob Json/ParseLib.v.beautified Json/ParseLib.required_vo: Json/ParseLib.v Comb/PState.vo Comb/Bytes.vo Comb/Utf8.vo Comb/Utf8b.vo Iter/Queue.vo Peg/Ast.vo Peg/Spec.vo Json/Rfc8259.vo Json/Recogniser.vo Json/EvalFacts.vo Json/LexLib.vo
+Json/ParseLib.vio: Json/ParseLib.v Comb/PState.vio Comb/Bytes.vio Comb/Utf8.vio Comb/Utf8b.vio Iter/Queue.vio Peg/Ast.vio Peg/Spec.vio Json/Rfc8259.vio Json/Recogniser.vio Json/EvalFacts.vio Json/LexLib.vio
+Json/ParseLib.vos Json/ParseLib.vok Json/ParseLib.required_vos: Json/ParseLib.v Comb/PState.vos Comb/Bytes.vos Comb/Utf8.vos Comb/Utf8b.vos Iter/Queue.vos Peg/Ast.vos Peg/Spec.vos Json/Rfc8259.vos Json/Recogniser.vos Json/EvalFacts.vos Json/LexLib.vos
 Extract/JsonExtract.vo Extract/JsonExtract.glob Extract/JsonExtract.v.beautified Extract/JsonExtract.required_vo: Extract/JsonExtract.v Comb/PState.vo Comb/Bytes.vo Iter/Queue.vo Peg/Ast.vo Peg/Spec.vo gen/JsonGrammar.vo Json/Rfc8259.vo Json/Recogniser.vo
 Extract/JsonExtract.vio: Extract/JsonExtract.v Comb/PState.vio Comb/Bytes.vio Iter/Queue.vio Peg/Ast.vio Peg/Spec.vio gen/JsonGrammar.vio Json/Rfc8259.vio Json/Recogniser.vio
 Extract/JsonExtract.vos Extract/JsonExtract.vok Extract/JsonExtract.required_vos: Extract/JsonExtract.v Comb/PState.vos Comb/Bytes.vos Iter/Queue.vos Peg/Ast.vos Peg/Spec.vos gen/JsonGrammar.vos Json/Rfc8259.vos Json/Recogniser.vos
